@@ -4,12 +4,12 @@ import json, os
 ROOT = os.path.dirname(os.path.dirname(os.path.abspath(__file__)))
 # property -> (status, note)   status: proof | other | na
 STATUS = {
-    "C01": ("proof", "41 theorems: overflowing/checked/wrapping/saturating/strict/inherent add, sub, neg, abs, add_signed, add_unsigned, sub_unsigned, carrying_add, borrowing_sub, abs_diff, unsigned_abs, midpoint, for every digit width w > 0 and every digit count"),
-    "C02": ("proof", "17 theorems: long_mul exact low half + exact overflow flag, widening_mul / carrying_mul full double-width product, signed overflowing_mul incl. MIN * -1, all projections, for every w > 0 and every n"),
-    "C03": ("proof", "67 theorems: div_rem_digit, div_rem_unchecked on ALL dispatch paths incl. Knuth algorithm D (quotient-estimate bounds, add-back, normalisation) for every digit width, n = q*d + r with 0 <= r < d; signed truncation = Z.quot/Z.rem, euclid pair, div_floor/div_ceil, next_multiple_of / checked_next_multiple_of as least/greatest multiple, zero divisor -> None / Panic, MIN / -1 cases of every form"),
+    "C01": ("proof", "44 theorems: overflowing/checked/wrapping/saturating/strict/inherent add, sub, neg, abs, add_signed, add_unsigned, sub_unsigned, carrying_add, borrowing_sub, abs_diff, unsigned_abs, midpoint, for every digit width w > 0 and every digit count; three tie theorems: digit.rs, 68 glue functions and the overflowing_add / overflowing_sub / Add<Digit> loops are REGENERATED from /repo's source on every run and proved equal to the model"),
+    "C02": ("proof", "20 theorems: long_mul exact low half + exact overflow flag, widening_mul / carrying_mul full double-width product, signed overflowing_mul incl. MIN * -1, all projections, for every w > 0 and every n; three tie theorems: digit.rs, 17 glue functions and long_mul (nested loop with break) are REGENERATED from /repo's source on every run and proved equal to the model"),
+    "C03": ("proof", "70 theorems: div_rem_digit, div_rem_unchecked on ALL dispatch paths incl. Knuth algorithm D (quotient-estimate bounds, add-back, normalisation) for every digit width, n = q*d + r with 0 <= r < d; signed truncation = Z.quot/Z.rem, euclid pair, div_floor/div_ceil, next_multiple_of / checked_next_multiple_of as least/greatest multiple, zero divisor -> None / Panic, MIN / -1 cases of every form; three tie theorems: digit.rs, 32 glue functions, div_rem_digit and last_digit_index are REGENERATED from /repo's source on every run and proved equal to the model (Knuth D itself is hand-modelled)"),
     "C04": ("proof", "18 theorems: exact panic conditions per build mode for + - * neg abs pow next_power_of_two, << >> with each of the twelve primitive amount types (negative, >= BITS, > u32::MAX), strict_*, ilog2; division panics are the C03 theorems; option-/pair-valued forms have no Panic value in the model and the correspondence check compares catch_unwind outcomes in both build modes"),
-    "C05": ("proof", "38 theorems: shl = (x*2^s) mod 2^BITS, shr = floor(x/2^s) zero-filling and sign-propagating, checked/overflowing/unbounded/strict/inherent forms, wrapping = s mod BITS for power-of-two BITS, rotations as cyclic permutations for EVERY width incl. non-powers of two, rotl/rotr inverses, machine-checked refutation of the pre-fix rotate"),
-    "C06": ("proof", "35 theorems: and/or/xor/not bitwise on the value, count_ones/zeros, leading/trailing zeros/ones, bits, bit/set_bit incl. the exact panic condition, power_of_two, is_power_of_two, checked/wrapping/inherent next_power_of_two, swap_bytes/reverse_bits as reversals and involutions"),
+    "C05": ("proof", "40 theorems: shl = (x*2^s) mod 2^BITS, shr = floor(x/2^s) zero-filling and sign-propagating, checked/overflowing/unbounded/strict/inherent forms, wrapping = s mod BITS for power-of-two BITS, rotations as cyclic permutations for EVERY width incl. non-powers of two, rotl/rotr inverses, machine-checked refutation of the pre-fix rotate; two tie theorems: 22 glue functions and the loops unchecked_shl_internal, unchecked_shr_pad_internal, rotate_digits_left, unchecked_rotate_left, swap_bytes, reverse_bits are REGENERATED from /repo's source on every run and proved equal to the model"),
+    "C06": ("proof", "36 theorems: and/or/xor/not bitwise on the value, count_ones/zeros, leading/trailing zeros/ones, bits, bit/set_bit incl. the exact panic condition, power_of_two, is_power_of_two, checked/wrapping/inherent next_power_of_two, swap_bytes/reverse_bits as reversals and involutions; one tie theorem: the fifteen loop functions (bitand .. is_one) are REGENERATED from /repo's source on every run and proved equal to the model"),
     "C07": ("proof", "28 theorems: cmp = Z.compare of the denoted values (unsigned and two's complement), lt/le/gt/ge/min/max/clamp, equality <-> identical arrays <-> equal values, hash stream equality, signum/is_positive/is_negative"),
     "C08": ("proof", "29 theorems: pow in every mode, signed and unsigned, 0^0 = 1, saturation side; ilog/ilog2/ilog10 exactness b^k <= x < b^(k+1), fuel sufficiency, None/Panic conditions, and no overflow of b*b inside iilog (so checked_ilog is total in debug builds)"),
     "C09": ("proof", "16 theorems: As/CastFrom between any two bnum configurations (all digit widths incl. cross-digit split/pack routines, signed and unsigned), primitive <-> bnum, bool, char: value reduced mod 2^(target BITS), never panics; reinterpretations are the identity"),
@@ -28,7 +28,8 @@ STATUS = {
 NA_REASON = "not yet built in this round (work in progress; see DESIGN.md section 9)"
 TRUST = ("Trusted: Coq 8.16.1 kernel (incl. vm_compute for the kernel-checked correspondence sample); coq/Prim.v models of Rust's "
          "primitive integer operations (modelled, not verified; exercised by the harness); the correspondence tie: Rust harness, "
-         "OCaml extraction (ExtrOcamlBasic only) + runner, Python driver/generators. No axioms: every property theorem prints "
+         "OCaml extraction (ExtrOcamlBasic only) + runner, Python driver/generators; the four source-to-Gallina translators "
+         "(tools/rs2v_*.py) and the vocabulary their output is written in (Prim.v, Model/DigitPrims.v, Model/LoopPrims.v, Model/Imp.v). No axioms: every property theorem prints "
          "'Closed under the global context'.")
 
 def main():
@@ -45,6 +46,8 @@ def main():
                   "text": "Coq theorems, closed under the global context, stating the property about a Gallina model of the Rust functions for ALL digit widths, digit counts and operands (" + note + "); the model is tied to the current source on every run by a differential correspondence check (both build modes, boundary-biased + exhaustive small spaces, kernel-checked sample)",
                   "design_ref": "DESIGN.md section 6"}
             tech = "machine-checked proof in Coq (model = spec, all widths) + differential correspondence check model vs code"
+            if pid in ("C01", "C02", "C03", "C05", "C06", "C16"):
+                tech += " + source-to-Gallina translators with tie proofs (generated = model)"
         else:
             lc = {"category": "other",
                   "text": "executable Gallina model of the Rust functions tied to the current source by a differential correspondence check (both build modes, kernel-checked sample); the Model = Spec theorems for this property are not merged yet, so proof level is not claimed" + (": " + note if note else ""),
